@@ -46,6 +46,8 @@ def obligations(tier):
         Ob('L1', 'S', 'stream layout: every file occupies [start,end) of its size, starts aligned with <4 bytes zero padding, in list order; '
            'digest/metadata set; yielded bytes == bytes_with_padding', '3 files, <=3 read pieces per file, piece size symbolic, fstat-reported size independent of the bytes read',
            [REPO_FUNCS['sf']], module=H, func='l1_layout', timeout=600),
+        Ob('L1v', 'S', '_stream_files when a listed file has disappeared at open(): the stream ends with the error, or every later file still starts aligned with < 4 bytes of padding',
+           'symbolic sizes of the files around it (<= 3 read pieces each), symbolic piece size', [REPO_FUNCS.get('sf', 'replicat.repository:Repository.snapshot')], module=H, func='l1_vanished', timeout=600),
         Ob('P1', 'S', 'restore plan: reference k in counter order is written at offset sum of earlier lengths, from the range start, '
            'for the digest its index names', '1 file, 3 refs, arbitrary ranges/counters/list order/indices',
            [REPO_FUNCS['rs']], module=H, func='p1_plan', timeout=600),
